@@ -69,13 +69,13 @@ inductive L
 
 def start (c : Call) : L :=
   match c.op with
-  | .range stop _ => .rangeStart stop c.oracle
+  | .range stop _ _ => .rangeStart stop c.oracle
   | .sweep _ => .sweepStart c.oracle
   | op => .single op
 
 def view (c : Call) : Op :=
   match c.op with
-  | .range stop _ => .range stop []
+  | .range stop _ _ => .range stop [] none
   | .sweep _ => .sweep none
   | op => op
 
